@@ -15,15 +15,16 @@ import (
 	"github.com/alicebob/miniredis/v2"
 	red "github.com/go-redis/redis/v8"
 	"github.com/gotid/god/internal/verifdrv"
+	"github.com/gotid/god/internal/verifdrv/c12raw"
 	"github.com/gotid/god/lib/breaker"
 	"github.com/gotid/god/lib/logx"
 	"github.com/gotid/god/lib/syncx"
 )
 
 type verifOp struct {
-	M    string           `json:"m"`
-	Form string           `json:"form"` // ctx | plain | canceled
-	A    verifdrv.C12Args `json:"a"`
+	M    string         `json:"m"`
+	Form string         `json:"form"` // ctx | plain | canceled
+	A    c12raw.C12Args `json:"a"`
 }
 
 type verifCase struct {
@@ -85,7 +86,7 @@ func (b *verifBrk) told() any {
 	}
 }
 
-func verifPairs(a verifdrv.C12Args, i int) []Pair {
+func verifPairs(a c12raw.C12Args, i int) []Pair {
 	var out []Pair
 	for _, p := range a.Scored(i) {
 		out = append(out, Pair{Member: p.M, Score: int64(p.S)})
@@ -94,9 +95,9 @@ func verifPairs(a verifdrv.C12Args, i int) []Pair {
 }
 
 // verifWrap calls wrapper method m (named by its context form) in the requested form.
-func verifWrap(w *Redis, node Node, ctx context.Context, plain bool, m string, a verifdrv.C12Args) (val any, err error, extra string, ok bool) {
+func verifWrap(w *Redis, node Node, ctx context.Context, plain bool, m string, a c12raw.C12Args) (val any, err error, extra string, ok bool) {
 	ok = true
-	zero := verifdrv.C12Zero{}
+	zero := c12raw.C12Zero{}
 	switch m {
 	case "BitCountCtx":
 		if plain {
@@ -175,9 +176,9 @@ func verifWrap(w *Redis, node Node, ctx context.Context, plain bool, m string, a
 		}
 	case "EvalCtx":
 		if plain {
-			val, err = w.Eval(verifdrv.C12Lua[a.N(0)], a.SS(1), a.Anys(2)...)
+			val, err = w.Eval(c12raw.C12Lua[a.N(0)], a.SS(1), a.Anys(2)...)
 		} else {
-			val, err = w.EvalCtx(ctx, verifdrv.C12Lua[a.N(0)], a.SS(1), a.Anys(2)...)
+			val, err = w.EvalCtx(ctx, c12raw.C12Lua[a.N(0)], a.SS(1), a.Anys(2)...)
 		}
 	case "EvalShaCtx":
 		if plain {
@@ -225,15 +226,15 @@ func verifWrap(w *Redis, node Node, ctx context.Context, plain bool, m string, a
 		}
 	case "GeoRadiusCtx":
 		if plain {
-			val, err = w.GeoRadius(a.S(0), a.F(1), a.F(2), verifdrv.C12GeoQuery(a, 3))
+			val, err = w.GeoRadius(a.S(0), a.F(1), a.F(2), c12raw.C12GeoQuery(a, 3))
 		} else {
-			val, err = w.GeoRadiusCtx(ctx, a.S(0), a.F(1), a.F(2), verifdrv.C12GeoQuery(a, 3))
+			val, err = w.GeoRadiusCtx(ctx, a.S(0), a.F(1), a.F(2), c12raw.C12GeoQuery(a, 3))
 		}
 	case "GeoRadiusByMemberCtx":
 		if plain {
-			val, err = w.GeoRadiusByMember(a.S(0), a.S(1), verifdrv.C12GeoQuery(a, 2))
+			val, err = w.GeoRadiusByMember(a.S(0), a.S(1), c12raw.C12GeoQuery(a, 2))
 		} else {
-			val, err = w.GeoRadiusByMemberCtx(ctx, a.S(0), a.S(1), verifdrv.C12GeoQuery(a, 2))
+			val, err = w.GeoRadiusByMemberCtx(ctx, a.S(0), a.S(1), c12raw.C12GeoQuery(a, 2))
 		}
 	case "GetCtx":
 		if plain {
@@ -437,13 +438,13 @@ func verifWrap(w *Redis, node Node, ctx context.Context, plain bool, m string, a
 	case "PipelinedCtx":
 		var cmds []red.Cmder
 		val = zero
-		fn := verifdrv.C12PipeFn(verifdrv.C12PipeScript(a, 0), &cmds)
+		fn := c12raw.C12PipeFn(c12raw.C12PipeScript(a, 0), &cmds)
 		if plain {
 			err = w.Pipelined(fn)
 		} else {
 			err = w.PipelinedCtx(ctx, fn)
 		}
-		extra = verifdrv.C12PipeResults(cmds)
+		extra = c12raw.C12PipeResults(cmds)
 	case "RPopCtx":
 		if plain {
 			val, err = w.RPop(a.S(0))
@@ -494,9 +495,9 @@ func verifWrap(w *Redis, node Node, ctx context.Context, plain bool, m string, a
 		}
 	case "ScriptLoadCtx":
 		if plain {
-			val, err = w.ScriptLoad(verifdrv.C12Lua[a.N(0)])
+			val, err = w.ScriptLoad(c12raw.C12Lua[a.N(0)])
 		} else {
-			val, err = w.ScriptLoadCtx(ctx, verifdrv.C12Lua[a.N(0)])
+			val, err = w.ScriptLoadCtx(ctx, c12raw.C12Lua[a.N(0)])
 		}
 	case "SetCtx":
 		val = zero
@@ -806,14 +807,14 @@ func verifDiff(c verifCase) any {
 			continue
 		}
 		told := brk.told()
-		rv, re, rx, _ := verifdrv.C12Raw(rawc, ctx, op.M, op.A)
+		rv, re, rx, _ := c12raw.C12Raw(rawc, ctx, op.M, op.A)
 		steps = append(steps, map[string]any{
-			"w":   map[string]any{"v": verifdrv.C12Val(verifdrv.C12Canon(op.M, wv)), "e": verifdrv.C12Err(we)},
-			"r":   map[string]any{"v": verifdrv.C12Val(verifdrv.C12Canon(op.M, rv)), "e": verifdrv.C12Err(re)},
+			"w":   map[string]any{"v": c12raw.C12Val(c12raw.C12Canon(op.M, wv)), "e": c12raw.C12Err(we)},
+			"r":   map[string]any{"v": c12raw.C12Val(c12raw.C12Canon(op.M, rv)), "e": c12raw.C12Err(re)},
 			"brk": told, "xw": wx, "xr": rx,
 		})
 	}
-	return map[string]any{"steps": steps, "dump_w": verifdrv.C12Dump(sw), "dump_r": verifdrv.C12Dump(sr)}
+	return map[string]any{"steps": steps, "dump_w": c12raw.C12Dump(sw), "dump_r": c12raw.C12Dump(sr)}
 }
 
 // verifBreaker: the real breaker under (a) absent keys, (b) cancelled contexts, (c) a dead server.
@@ -836,7 +837,7 @@ func verifBreaker(c verifCase) any {
 		for i := 0; i < c.N; i++ {
 			brk.reset()
 			err := f()
-			out = append(out, []any{verifdrv.C12Err(err), brk.told()})
+			out = append(out, []any{c12raw.C12Err(err), brk.told()})
 		}
 		return out
 	}
@@ -864,7 +865,7 @@ func verifBreaker(c verifCase) any {
 	for i := 0; i < c.N; i++ {
 		brk2.reset()
 		_, err := w2.Get("k")
-		deadPhase = append(deadPhase, []any{verifdrv.C12Err(err), brk2.told()})
+		deadPhase = append(deadPhase, []any{c12raw.C12Err(err), brk2.told()})
 	}
 	return map[string]any{"nil": nilPhase, "canceled": canceledPhase, "dead": deadPhase}
 }
